@@ -4,7 +4,7 @@ C07 model, part (i): the memory accounting of one gluon heap (vm/src/gc.rs `stru
 
 Only sizes matter: an object is the number of bytes accounted for it, `AllocPtr::size()` =
 `GcHeader::value_offset() + value_size` (gc.rs:394-396).  `hdr` is `GcHeader::value_offset()`
-(gc.rs:443-447; 32 on a 64-bit target), a parameter of the model.  Sizes are `Nat`; the Rust code
+(gc.rs:443-447; 40 on the x86-64 target: `Option<AllocPtr>` has no niche), a parameter of the model.  Sizes are `Nat`; the Rust code
 uses `usize` with `saturating_add` in the check (gc.rs:1233-1236), which differs only when a sum
 reaches 2^64.
 -/
@@ -72,6 +72,19 @@ def checkCollect (g : Gc) (marks : List Bool) : Gc × Bool :=
 /-- gc.rs:1185-1215 `alloc_and_collect`: `check_collect(roots)` then `alloc_owned`. -/
 def allocAndCollect (g : Gc) (marks : List Bool) (size : Nat) : Gc × Res :=
   alloc (checkCollect g marks).1 size
+
+/-- vm/src/api/mod.rs:526-537 `Pushable::status_push` (and 488-496 `async_status_push`): when pushing
+    the result of an extern primitive fails (e.g. `std.string.prim.append` cannot allocate its result,
+    vm/src/primitives.rs:286-289 → `RuntimeResult::Panic` → api/mod.rs:1518), the text of the error
+    is allocated with `alloc_ignore_limit` (line 533) and pushed for `execute_function`
+    (thread.rs:1915-1926) to turn into `Error::Panic(text)`.  `msg` = length of that text. -/
+def allocOrReport (g : Gc) (size msg : Nat) : Gc × Res :=
+  match alloc g size with
+  | (g', .ok) => (g', .ok)
+  | (g', r) => (allocIgnore g' msg, r)
+
+/-- The repair: the error leaves the primitive without a heap allocation. -/
+def allocOrReportFixed (g : Gc) (size _msg : Nat) : Gc × Res := alloc g size
 
 inductive Op where
   | alloc (size : Nat)
